@@ -14,7 +14,9 @@ from ref import front
 POS_RE = re.compile(rb't\.sd:(\d+):(\d+):')
 
 def find_loc_fn(M):
-    r = [n for n in M.bodies if re.search(r'scanner::<impl .*>::loc$', n)]
+    # by signature: the scanner method that hands out a (line, column) pair; by name as a fallback
+    r = [n for n, b in M.bodies.items() if b.kind == 'fn' and re.search(r'\(_1: &(mut )?Scanner<', b.header) and b.header.rstrip(' {').endswith('-> (usize, usize)') and b.nargs == 1]
+    if len(r) != 1: r = [n for n in M.bodies if re.search(r'scanner::<impl .*>::loc$', n)]
     return r[0] if len(r) == 1 else None
 
 def scanner_job(N, ascii_only):
